@@ -8,6 +8,21 @@ COMMON_TB = [
 ]
 
 PROPS = {
+    "C02": {
+        "level_text": "Lean 4 theorems: (byte level) every append leaves the previous file content as an exact prefix and adds only whole newline-terminated frames — the lines of the new log are the old lines followed by exactly the appended frames; (static, regenerated on every run by the translator ripx) the truth file is only ever opened create+append and impl EventLog contains no truncating/seeking/renaming call; EventLog::append is lock / body / newline / flush / unlock; in the call graph of impl ContinuityStore none of the read-only capabilities (replay, cut points, compaction status, cursor status, selection status, list, get, subscribe, the compile-input loaders) can reach a function that appends to the event log, and no cache-layer file mentions the event log — decided by a reachability computation over the regenerated graph, for every argument value at once; (planner model of C09) auto and auto-schedule with nothing to do or as a dry run append nothing for every thread and parameter. Tied by an implementation oracle on bytes: operation histories over the store API and the HTTP router (valid, invalid, unknown-thread arguments; cache deletion; reopen), after every call the previous bytes (length + SHA-256) are a prefix, the suffix splits into JSON frames, read-only and no-op calls add nothing.",
+        "level_note": "Lean kernel; ripx is trusted to see every method call on self and every event_log.append in impl ContinuityStore (closures and nested blocks included; calls through trait objects or macros would be missed; none exist today); the OS honours O_APPEND; serde_json never emits a raw newline inside a frame (checked by the oracle on every appended line).",
+        "technique": "Lean 4 proof (list lemmas on bytes; decide over regenerated call graph / open flags; planner model) + byte-level implementation oracle over operation histories",
+        "design_ref": "§5 C02",
+        "trusted_base": COMMON_TB + [
+            "translator ripx (syn): call graph of impl ContinuityStore, OpenOptions chains and destructive calls in impl EventLog; fails closed when an entry point or shape is missing",
+            "modelled, not verified: O_APPEND semantics of the OS; BufWriter flush",
+        ],
+        "assumptions": [
+            "log-append I/O errors do not occur (a failed write could leave a partial line; crash points are the subject of C05)",
+            "session and task emitters append through the same EventLog::append (C01/C03 cover their frames)",
+        ],
+        "gen": ["LogEffects", "CallGraph", "EffectOrder"],
+    },
     "C06": {
         "level_text": "Lean 4 theorems over a two-actor transition system (producer emitting n frames with a micro-program over lock / publish / record / unlock; subscriber doing subscribe, then snapshot under the same lock, then history ++ live filtered by seq): for each join-safe emit order, every n and EVERY interleaving, the subscriber delivers 0..n-1 exactly once in order; the producer is independent of subscribers; the snapshot is never blocked forever. The emit orders and handler orders are REGENERATED from the current source by the translator ripx on every run, and the obligations 'the session emitter / task emitter / every continuity append has a join-safe shape' and 'every handler subscribes before its snapshot' are re-proved by decide on the regenerated tables. Tied further by controlled-schedule correspondence: the real emitters and the real GET .../events handlers are single-stepped through yield points (cfg rip_verif) for every (subscribe, snapshot) position on short streams and random schedules on longer ones, all three stream kinds; delivered seqs must equal the model's and the observed point trace must match the generated order. A subscriber lagging more than the channel capacity loses frames: recorded known finding.",
         "level_note": "Lean kernel; tokio broadcast (FIFO delivery to receivers subscribed at send time) and tokio Mutex are modelled, not verified; the model's channel is unbounded (capacity is the known finding); ripx is trusted to report the order of the effect calls it recognises (cross-checked dynamically against the yield-point trace on every run).",
